@@ -1000,7 +1000,11 @@ def adapt_typehints(
                 raise_unexpected_value(f"Unexpected keys: {extra_keys}", val)
             val = dict(val)
             for k, v in val.items():
-                val[k] = adapt_typehints(v, typehint.__annotations__[k], **adapt_kwargs)
+                kwargs = adapt_kwargs.copy()
+                if kwargs.get("prev_val") is not None:  # the previous value of this entry, not of the whole dict
+                    prev = kwargs["prev_val"]
+                    kwargs["prev_val"] = prev.get(k) if isinstance(prev, dict) else None
+                val[k] = adapt_typehints(v, typehint.__annotations__[k], **kwargs)
         if typehint_origin is MappingProxyType and not serialize:
             val = MappingProxyType(val)
         elif typehint_origin is OrderedDict:
